@@ -421,9 +421,21 @@ func zzH_TRvia() {
 	arg := []byte{0x31}
 	var reply []byte
 	vAssert(t.Call("a", "S.Echo", &arg, &reply) == nil, "first-call-ok")
+	// optionally a stream is open on the pooled connection when the server dies (the user closes it
+	// afterwards, or forgets to)
+	var open Stream
+	if vChoose("stream-open-at-death", 2) == 1 {
+		st, err := t.NewStream("a", "S.Watch")
+		vAssert(err == nil && st != nil, "first-call-ok")
+		open = st
+	}
 	vQuiesce()
 	z.kill("a")
 	vQuiesce()
+	if open != nil && vChoose("close-it-after-death", 2) == 1 {
+		open.Close()
+		vQuiesce()
+	}
 	z.up["a"] = true
 	via := vChoose("via", 5)
 	try := func() error {
